@@ -212,7 +212,7 @@ Proof.
   - destruct f; try discriminate; cbn; rewrite N.eqb_refl; reflexivity.
   - destruct f; try discriminate; reflexivity.
   - destruct H as [->|[->|[e ->]]]; cbn; try reflexivity. rewrite N.eqb_refl. reflexivity.
-  - unfold op_check. cbn [is_cmp is_eq is_ord orb fn_eqb]. cbn [lookup_mono mono doc_table fn_eqb m_arg m_min m_max m_res].
+  - unfold op_check. cbn [is_cmp is_eq is_ord orb fn_eqb]. cbn [lookup_mono mono doc_table fn_eqb m_arg m_min m_max m_res m_checked limit].
     assert (FB : first_bad_arg (AKind KInt) shs tys 0 = None).
     { apply first_bad_none_kind; [assumption| apply Forall_eq_int_kind; assumption]. }
     rewrite FB. destruct tys; [congruence|]. reflexivity.
@@ -259,7 +259,7 @@ Proof.
   - destruct f; try discriminate; reflexivity.
   - destruct H as [->|[->|[e ->]]]; cbn; try reflexivity. rewrite N.eqb_refl. reflexivity.
   - unfold op_check. cbn [is_cmp is_eq is_ord orb fn_eqb].
-    cbn [lookup_mono mono impl_table fn_eqb m_arg m_min m_max m_res].
+    cbn [lookup_mono mono impl_table fn_eqb m_arg m_min m_max m_res m_checked limit].
     assert (FB : first_bad_arg (AKind KInt) shs tys 0 = None).
     { apply first_bad_none_kind; [assumption| apply Forall_eq_int_kind; assumption]. }
     rewrite FB. destruct tys; [congruence|]. reflexivity.
